@@ -278,12 +278,34 @@ def check_snap_axis(x0, x1, res, off, tol, tx, nx):
         require(dev <= lim, "pixel edge not aligned to anchor %r: edge/res-anchor = %.12g", off, float(q))
 
 
+def minimal_count(x0, x1, res, off, tol):
+    """Smallest pixel count that covers [x0, x1] up to tol on the requested alignment, exact arithmetic.
+    Returns (nx_min, ambiguous) - ambiguous when an edge sits within rounding of the tolerance boundary."""
+    R = Fr(abs(res))
+    X0, X1, TOL = Fr(x0), Fr(x1), Fr(tol)
+    if off is None:
+        q = (X1 - X0) / R - TOL
+        amb = abs(q - round(q)) <= Fr(1, 10**9) * max(1, abs(q)) or abs((X1 - X0) / R + TOL - round((X1 - X0) / R + TOL)) <= Fr(1, 10**9) * max(1, abs(q))
+        return max(1, math.ceil(q)), amb
+    q0 = X0 / R - Fr(off) + TOL
+    q1 = X1 / R - Fr(off) - TOL
+    band = Fr(1, 10**9) * max(1, abs(q0), abs(q1))
+    amb = any(abs(v - round(v)) <= band for v in (q0, q1, q0 - 2 * TOL, q1 + 2 * TOL))
+    return max(1, math.ceil(q1) - math.floor(q0)), amb
+
+
 def o_snap_grid(case, T):
     from odc.geo import math as M
 
     x0, x1, res, off, tol = case["x0"], case["x1"], case["res"], case["off"], case["tol"]
     tx, nx = M.snap_grid(x0, x1, res, off, tol=tol)
     check_snap_axis(x0, x1, res, off, tol, tx, nx)
+    # "... and is minimal": no grid on this alignment with fewer pixels covers the interval up to the tolerance
+    nmin, amb = minimal_count(x0, x1, res, off, tol)
+    if amb:
+        T.exclude("edge_on_tolerance_boundary")
+    else:
+        require(nx == nmin, "snap_grid(%r, %r, %r, %r, tol=%r) uses %d pixels, %d suffice to cover the interval up to the tolerance", x0, x1, res, off, tol, nx, nmin)
     ratio = (x1 - x0) / abs(res)
     if res < 0 or off not in (0, None) or abs(ratio - round(ratio)) < 10 * tol:
         T.nontrivial()
